@@ -92,11 +92,13 @@ def events(rng, n, hot=True, mode="mixed", unsub_p=0.0, term_p=0.15):
 
 
 def parse_suffix(body):
-    """`o=N1;C live=2 tm=3 t=10` -> (['N1','C'], {'live':2,'tm':3,'t':10})"""
-    parts = body.split(" ")
-    out = parts[0][2:].split(";") if parts[0].startswith("o=") and len(parts[0]) > 2 else []
+    """`o=N1;N(l 1 2);C live=2 tm=3 t=10` -> (['N1','N(l 1 2)','C'], {'live':2,'tm':3,'t':10})"""
+    import re
+    m = re.search(r" (?=[a-z]+=)", body)
+    head, tail = (body[:m.start()], body[m.end():]) if m else (body, "")
+    out = head[2:].split(";") if head.startswith("o=") and len(head) > 2 else []
     kv = {}
-    for p in parts[1:]:
+    for p in tail.split(" "):
         if "=" in p:
             k, v = p.split("=", 1)
             try:
@@ -104,6 +106,13 @@ def parse_suffix(body):
             except ValueError:
                 kv[k] = v
     return out, kv
+
+
+def parse_head(body):
+    """the `o=…` part of a line without the ` key=value` suffix"""
+    import re
+    m = re.search(r" (?=[a-z]+=)", body)
+    return body[:m.start()] if m else body
 
 
 def time_shrink(case):
